@@ -17,6 +17,8 @@ def json_equal(a: Any, b: Any) -> bool:
     if isinstance(a, (list, tuple)) and isinstance(b, (list, tuple)):
         return len(a) == len(b) and all(json_equal(x, y) for x, y in zip(a, b))
     if isinstance(a, dict) and isinstance(b, dict):
+        if any(not isinstance(k, str) for k in a) or any(not isinstance(k, str) for k in b):
+            a, b = _strkeys(a), _strkeys(b)  # JSON object keys are strings (integer-keyed maps)
         return set(a) == set(b) and all(json_equal(a[k], b[k]) for k in a)
     if isinstance(a, enum.Enum):
         a = a.value
@@ -25,10 +27,15 @@ def json_equal(a: Any, b: Any) -> bool:
     return type(a) is type(b) and a == b
 
 
+def _strkeys(d: Dict) -> Dict:
+    return {(k if isinstance(k, str) else json.dumps(k)): v for k, v in d.items()}
+
+
 def json_diff(a: Any, b: Any, path: str = "$") -> Optional[str]:
     if json_equal(a, b):
         return None
     if isinstance(a, dict) and isinstance(b, dict):
+        a, b = _strkeys(a), _strkeys(b)
         for k in a:
             if k not in b:
                 return f"{path}.{k}: lost (was {json.dumps(a[k], default=str)[:80]})"
